@@ -76,3 +76,12 @@ def register_all(reg):
     reg("C15", "seqx", "exploration", "exhaustive wire / pickle round trip with deep structural comparison, incl. traffic harvested from real runs",
         "Every message class (field-menu products and messages harvested from real runs of the 13 algorithm modules), every ComputationDef of the 4 graph models over all small DCOPs, and AgentDefs are pushed through the real send_msg / do_POST transformation (only the socket is replaced) or pickle and compared field by field, link by link, value by value.",
         "A set decoded as a list is accepted; the socket itself is not exercised; replication and discovery messages come from menus, not harvested. " + E2_NOTE, "DESIGN.md 3 C15")
+
+    THRX_NOTE = ("Real threads under a cooperative scheduler (one baton), virtual time; scheduling points at synchronisation operations only (thread start/exit/join, Event, queue put/get, sleep, timers); "
+                 "deviation-bounded, not all interleavings; in-process transport only.")
+    reg("C21", "thrx", "model_checking", "stateless deviation-bounded systematic scheduling of the real threaded runtime (cooperative scheduler, virtual time) + callback/thread monitor",
+        "Every schedule with <=1 (thorough <=2 on 2-variable instances) deviation from the fair default schedule of the real orchestrated run (DPOP mappings of C22 + A-DSA with periodic actions) is executed; a monitor checks every start / on_message / pause / periodic action / discovery callback for the executing thread and for overlap per agent.",
+        THRX_NOTE, "DESIGN.md 3 C21")
+    reg("C22", "thrx", "model_checking", "stateless deviation-bounded systematic scheduling of the real threaded runtime (cooperative scheduler, virtual time) x instance/distribution enumeration",
+        "For every (small DCOP x agent set x distribution incl. oneagent/adhoc/gh_cgdp outputs) the real run_local_thread_dcop / deploy_computations / run(timeout) sequence is executed under the fair default schedule and every schedule with <=1 deviation (thorough: <=2 on 2-variable instances); each execution must end OK before the timeout on a complete, brute-force-optimal assignment whose reported cost/violation match the reference accounting.",
+        THRX_NOTE, "DESIGN.md 3 C22")
